@@ -18,7 +18,7 @@ K_PROPS = {
                     "tiny-std/src/allocator/dlmalloc.rs is compiled from the repository's file inside a wrapper module (include!); debug-assertions are off in the harness profile (check_malloc_state walks all bins after every call), overflow checks stay on",
                     "OS model: mmap serves two page-aligned 64 KiB arenas of uninitialised (= arbitrary) memory with exact bookkeeping and refuses anything else with ENOMEM; mremap may only shrink in place; one injected failure where stated",
                     "least_bit is checked under its call-site precondition x != 0 (non-empty bin map)"],
-                outside=["EVERY history longer than two allocations: free, realloc and any operation on a heap that already holds free chunks are NOT covered - a listed, fully concrete script of 5 operations already needs 10 min of symbolic execution, 8 million steps and 14-19 GB (the allocator masks pointer values for alignment, CBMC cannot fold them, every bin pointer read back from the arena becomes symbolic); ten such scripts were built, measured and removed",
+                outside=["everything beyond ONE malloc on the fresh heap: memalign, calloc, free, realloc and any second operation are NOT covered (each measured: no verdict in 15-30 min / 24 GB) - a listed, fully concrete script of 5 operations already needs 10 min of symbolic execution, 8 million steps and 14-19 GB (the allocator masks pointer values for alignment, CBMC cannot fold them, every bin pointer read back from the arena becomes symbolic); ten such scripts were built, measured and removed",
                          "therefore: disjointness / contents-intact across frees, reuse of freed space, coalescing, tree-bin rotations, realloc prefix preservation, heap usable after an OOM - the larger half of C03 - are outside what this check decides; multi-threaded use through the global allocator; large (mmapped) blocks"]),
     "C05": dict(assumptions=COMMON + KERNEL_ASSUMPTIONS + [
                     "tiny-std is compiled from /repo with features alloc, threaded, verif-hooks (hook commit 253aae5): thread::spawn is compiled without `symbols`, the thread panic handler is an ordinary function, get_tls_ptr reads a stand-in for the TLS register, and the panic handler's final munmap + exit are issued through the `sc` crate instead of inline asm",
